@@ -17,14 +17,18 @@ import (
 	sdkmempool "github.com/cosmos/cosmos-sdk/types/mempool"
 	"github.com/cosmos/cosmos-sdk/types/tx/signing"
 	banktypes "github.com/cosmos/cosmos-sdk/x/bank/types"
+	sdkconsensustypes "github.com/cosmos/cosmos-sdk/x/consensus/types"
+	govv1 "github.com/cosmos/cosmos-sdk/x/gov/types/v1"
 	protov2 "google.golang.org/protobuf/proto"
 	"pgregory.net/rapid"
 
 	palomamempool "github.com/palomachain/paloma/v2/app/mempool"
 	consensustypes "github.com/palomachain/paloma/v2/x/consensus/types"
 	evmtypes "github.com/palomachain/paloma/v2/x/evm/types"
+	palomatypes "github.com/palomachain/paloma/v2/x/paloma/types"
 	schedtypes "github.com/palomachain/paloma/v2/x/scheduler/types"
 	skywaytypes "github.com/palomachain/paloma/v2/x/skyway/types"
+	treasurytypes "github.com/palomachain/paloma/v2/x/treasury/types"
 	valsettypes "github.com/palomachain/paloma/v2/x/valset/types"
 
 	"verif/harness/evid"
@@ -71,7 +75,7 @@ func c19Class(shape string) int {
 	return 0
 }
 
-var c19Shapes = []string{"consensus", "consensus2", "scheduler", "evm", "evm2", "valset", "valset2", "skyway", "bank", "multi-consensus", "multi-mixed"}
+var c19Shapes = []string{"consensus", "consensus2", "scheduler", "evm", "evm2", "valset", "valset2", "skyway", "bank", "multi-consensus", "multi-mixed", "sdkConsensusParams", "treasury", "govVote", "paloma"}
 
 func c19Msgs(shape string) []sdk.Msg {
 	switch shape {
@@ -93,6 +97,15 @@ func c19Msgs(shape string) []sdk.Msg {
 		return []sdk.Msg{&skywaytypes.MsgSendToRemote{}}
 	case "bank":
 		return []sdk.Msg{&banktypes.MsgSend{}}
+	// messages of other modules whose type names resemble the prioritised ones: all of the lowest class
+	case "sdkConsensusParams":
+		return []sdk.Msg{&sdkconsensustypes.MsgUpdateParams{}} // /cosmos.consensus.v1.MsgUpdateParams: the SDK's consensus-params module
+	case "treasury":
+		return []sdk.Msg{&treasurytypes.MsgUpsertRelayerFee{}}
+	case "govVote":
+		return []sdk.Msg{&govv1.MsgVote{}}
+	case "paloma":
+		return []sdk.Msg{&palomatypes.MsgAddStatusUpdate{}}
 	case "multi-consensus":
 		return []sdk.Msg{&consensustypes.MsgAddMessagesSignatures{}, &consensustypes.MsgAddMessagesSignatures{}}
 	case "multi-mixed":
